@@ -973,6 +973,29 @@ Proof.
   constructor; [apply typed_rt_type; exact Hv | exact IHT].
 Qed.
 
+(* one cell of a REPL session: Interpreter.execute agrees with the reference, keeps the `protected` counter at 0,
+   and leaves the session stack untouched when the cell fails *)
+Lemma c01_execute fuel code st R inputs :
+  in_fragment code -> typecheck_nr code st = Some R -> stack_typed inputs st ->
+  let (st', o) := py_execute e fuel code (mkst [] inputs) in
+  erase_outcome o = ref_eval e fuel code (map erase inputs) /\ prot st' = 0 /\
+  match ref_eval e fuel code (map erase inputs) with
+  | Done r => map erase (items st') = r /\ exists s1, R = Typed s1 /\ stack_typed (items st') s1
+  | _ => st' = mkst [] inputs
+  end.
+Proof.
+  intros F Htc Hs. unfold py_execute.
+  pose proof (c01_simulation fuel code st R [] inputs F Htc Hs) as Hsim.
+  destruct (py_eval e fuel code (mkst [] inputs)) as [stf|v| |] eqn:E.
+  - destruct (c01_frame fuel code st R [] inputs stf F Htc Hs E) as (Hh & Hp & s1 & -> & T).
+    split; [exact Hsim|]. split; [exact Hp|]. rewrite <- Hsim. simpl.
+    assert (V : view stf = items stf) by (unfold view; rewrite Hp; reflexivity).
+    rewrite <- V. split; [reflexivity|]. eauto.
+  - split; [exact Hsim|]. split; [reflexivity|]. rewrite <- Hsim. reflexivity.
+  - split; [exact Hsim|]. split; [reflexivity|]. rewrite <- Hsim. reflexivity.
+  - split; [exact Hsim|]. split; [reflexivity|]. rewrite <- Hsim. reflexivity.
+Qed.
+
 (* the programs accepted by typecheck_nr are well-typed Michelson *)
 Lemma tc_simple_sub i s x : tc_simple true i s = Some x -> tc_simple false i s = Some x.
 Proof.
